@@ -1,6 +1,12 @@
-"""C17 — The HTTP client transmits a non-idempotent request at most once (DESIGN §7 C17)."""
+"""C17 — The HTTP client transmits a non-idempotent request at most once (DESIGN §7 C17).
+
+Tie = translator unit `httpretry` (retry-classification facts -> Gen/HttpRetry.lean) + trace inclusion: the REAL HttpClient
+(real Transport, real TcpEngine, loopback sockets) against a scripted raw-socket server inside the harness process; the Lean
+driver predicts, from the fault class of every attempt, the engine-call trace (connect/send/close per session), the result
+class, the number of attempts and the cache/lease state.  Property monitors look at the implementation's output only.
+"""
 import os, json, re
-from vlib.core import Ctx, hexs, unhex, ddmin
+from vlib.core import Ctx, hexs, unhex, ddmin, ModelBuildError
 
 ID = "C17"
 MODULES = ["IoraModel.Props.C17"]
@@ -38,15 +44,16 @@ OBLIGATIONS = [
     {"id": "C17_R6_silence", "theorem": "Iora.C17.R6_silence_ends_attempt", "kind": "proved",
      "statement": "a silent peer ends the attempt with an error at that receive"},
 ]
+LEANCHECK = MODULES + ["IoraModel.Lemmas.HttpRetry", "IoraModel.Lemmas.HttpRetryCache", "IoraModel.Model.HttpRetry"]
 ANCHOR_FILES = ["include/iora/network/http_client.hpp", "include/iora/network/transport_impl.hpp"]
+HERE = os.path.dirname(os.path.dirname(os.path.abspath(__file__)))
 
 # the generator's own table (RFC 9110 §9.2.2) — independent of the source and of the model
 RFC_IDEMPOTENT = {"GET", "HEAD", "PUT", "DELETE", "OPTIONS", "TRACE"}
 METHODS_IDEM = ["GET", "HEAD", "PUT", "DELETE", "OPTIONS", "TRACE"]
 METHODS_NON = ["POST", "PATCH", "get", "Get", "post", "put", "delete", "FOO", "GETX", "GE", "PUTT", "LOCK", "hEAD", "Post", "TRACe", "OPTION"]
-REQUEST_TIMEOUT_MS = 400
+REQUEST_TIMEOUT_MS = 400          # requestTimeout the harness configures (client-visible milliseconds)
 FRAMING_CLASSES = "FPV"
-PRESEND_CLASSES = "RBM"
 
 
 # ------------------------------------------------------------------ responses (generator-side reference)
@@ -58,14 +65,26 @@ class Resp:
     def sem(self):
         return "%d,%s,%s,%d" % (self.status, "~" if self.conn is None else hexs(self.conn), hexs(self.version), 1 if self.surplus else 0)
 
+    def boundaries(self):
+        """offsets at and around every field of the response"""
+        msg = self.wire
+        out = {0, 1, len(msg) - 1, len(msg)}
+        off = 0
+        for line in msg[:self.header_end].split(b"\r\n"):
+            out |= {off, off + 1, off + len(line), off + len(line) + 1, off + len(line) + 2}
+            c = line.find(b":")
+            if c >= 0:
+                out |= {off + c, off + c + 1, off + c + 2}
+            off += len(line) + 2
+        out |= {self.header_end - 1, self.header_end, self.header_end + 1}
+        return sorted(o for o in out if 0 <= o <= len(msg))
 
-def mk_resp(tag, method="GET", version=b"1.1", status=200, conn=None, mode="cl", surplus=b"", interim=0, conn_name=b"Connection", extra=()):
+
+def mk_resp(tag, method="GET", version=b"1.1", status=200, conn=None, mode="cl", surplus=b"", interim=0, conn_name=b"Connection"):
     body = (b"body-" + tag) if mode != "nobody" else b""
     reason = {200: b"OK", 201: b"Created", 204: b"No Content", 304: b"Not Modified", 404: b"Not Found", 500: b"Oops", 503: b"Busy"}.get(status, b"X")
     head = b"HTTP/" + version + b" " + str(status).encode() + b" " + reason + b"\r\n"
     head += b"X-Tag: " + tag + b"\r\n"
-    for h in extra:
-        head += h + b"\r\n"
     if conn is not None:
         head += conn_name + b": " + conn + b"\r\n"
     if mode == "cl":
@@ -124,7 +143,8 @@ CONN_VALUES = [None, b"keep-alive", b"close", b"Close", b"CLOSE", b"foo, close",
                b"", b",", b",close", b"close,", b"foo,,close", b"c lose", b"keep-alive,", b"  ,  ,  "]
 
 
-def request_len(method, seq, body_len, reuse=True):
+def request_fields(method, seq, body_len, reuse=True):
+    """(length, offsets at and around every field) of the request the client will build"""
     line = "%s /r%d?q=1 HTTP/1.1\r\nHost: 127.0.0.1\r\nUser-Agent: Iora-HttpClient/1.0\r\nConnection: %s\r\nX-Req-Id: %d\r\n" % (
         method, seq, "keep-alive" if reuse else "close", seq)
     if body_len:
@@ -132,7 +152,13 @@ def request_len(method, seq, body_len, reuse=True):
     fields = []
     off = 0
     for part in line.split("\r\n")[:-1]:
-        fields += [off, off + 1, off + len(part), off + len(part) + 1]
+        fields += [off, off + 1, off + len(part), off + len(part) + 1, off + len(part) + 2]
+        c = part.find(":")
+        if c >= 0:
+            fields += [off + c, off + c + 1, off + c + 2]
+        sp = part.find(" ")
+        if off == 0 and sp >= 0:
+            fields += [sp, sp + 1]
         off += len(part) + 2
     total = len(line) + 2 + body_len
     fields += [total - body_len - 2, total - body_len - 1, total - body_len, total - 1, total]
@@ -140,145 +166,204 @@ def request_len(method, seq, body_len, reuse=True):
 
 
 # ------------------------------------------------------------------ script tokens:  <semantic>@<concrete>
-def conc(req="n0", resp=b"", j=-1, act="k", cut=0):
-    return "%s,%s,%d,%s,%d" % (req, hexs(resp), j, act, cut)
+def conc(req="n0", resp=b"", j=-1, act="k", cut=0, xbody=None):
+    return "%s,%s,%d,%s,%d,%s" % (req, hexs(resp), j, act, cut, "~" if xbody is None else hexs(xbody))
 
 
-class Att:
-    """One scripted attempt: semantic class (what the model is told), concrete injection (what the harness does)."""
-    def __init__(self, cls, sem, concrete, resp=None, reusable=False, body=None, idle=False, note=""):
-        self.cls, self.sem, self.concrete, self.resp, self.reusable, self.body, self.idle, self.note = cls, sem, concrete, resp, reusable, body, idle, note
-
-    def tok(self):
-        return ("I" if self.idle else "") + self.sem + "@" + self.concrete
+def tok_client(cls):
+    return cls + "@" + conc()
 
 
-def att_ok(rng, tag, method, reuse_cfg, kind=None):
-    """A complete, well-formed response; returns the attempt and whether the connection may be kept."""
+def tok_ok(r, async_ok=True, cut=0):
+    return "K:%s:%d@%s" % (r.sem(), 1 if async_ok else 0, conc(resp=r.wire, cut=cut, xbody=r.body))
+
+
+def tok_req_fault(kind, k):
+    """kind: r = RST, f = FIN, s = silence after k request bytes; w = RST with the request unread; a = RST at accept"""
+    return ("T" if kind == "s" else "C") + "@" + conc(req="%s%d" % (kind, k))
+
+
+def tok_resp_fault(r, j, act):
+    """j bytes of the response r, then f = FIN, r = RST, s = silence"""
+    return ("T" if act == "s" else "C") + "@" + conc(resp=r.wire, j=j, act=act)
+
+
+def rand_ok(rng, tag, method):
     head = method == "HEAD"
     mode = "nobody" if head else rng.choice(["cl", "cl", "cl", "chunked", "nobody"])
     status = rng.choice([200, 200, 200, 201, 404, 500, 503]) if mode != "nobody" or head else rng.choice([204, 304])
     version = rng.choice([b"1.1", b"1.1", b"1.1", b"1.0"])
     conn = rng.choice(CONN_VALUES) if rng.chance(2, 3) else None
     surplus = rng.choice([b"", b"", b"", b"X", b"HTTP/1.1 200 OK\r\nContent-Length: 0\r\n\r\n", b"\r\n"])
-    interim = rng.choice([0, 0, 0, 1, 2])
-    conn_name = rng.choice([b"Connection", b"connection", b"CONNECTION", b"Connection"])
-    r = mk_resp(tag, method, version, status, conn, mode, surplus, interim, conn_name)
-    async_ok = not rng.chance(1, 12)
+    r = mk_resp(tag, method, version, status, conn, mode, surplus, rng.choice([0, 0, 0, 1, 2]), rng.choice([b"Connection", b"connection", b"CONNECTION"]))
     cut = rng.choice([0, 0, 1, r.header_end - 2, r.header_end, r.header_end + 1, len(r.wire) - len(surplus) - 1, rng.range(1, max(len(r.wire) - 1, 1))])
     if cut < 0 or cut >= len(r.wire) - len(surplus):
         cut = 0          # never separate the surplus from the message it follows (see `assumptions`)
-    reusable = reuse_cfg and not py_close_signalled(conn, version) and not surplus and async_ok
-    return Att("K", "K:%s:%d" % (r.sem(), 1 if async_ok else 0), conc(resp=r.wire, cut=cut) + (""), r, reusable, r.body)
+    return tok_ok(r, not rng.chance(1, 12), cut)
 
 
-def att_close_delimited(rng, tag, method):
-    version = rng.choice([b"1.1", b"1.0"])
-    conn = rng.choice([None, b"close", b"keep-alive"])
-    r = mk_resp(tag, method, version, rng.choice([200, 500]), conn, "close")
+def rand_close_delimited(rng, tag, method):
+    r = mk_resp(tag, method, rng.choice([b"1.1", b"1.0"]), rng.choice([200, 500]), rng.choice([None, b"close", b"keep-alive"]), "close")
     # any cut at or after the end of the header block is a complete close-delimited message
     j = rng.choice([len(r.wire), len(r.wire), r.header_end, r.header_end + 1, rng.range(r.header_end, len(r.wire))])
-    body = r.wire[r.header_end:j]
     cut = rng.choice([0, r.header_end - 1, r.header_end])
     if cut >= j:
         cut = 0
-    return Att("D", "D:%s" % r.sem(), conc(resp=r.wire, j=j, act="f", cut=cut), r, False, body)
+    return "D:%s@%s" % (r.sem(), conc(resp=r.wire, j=j, act="f", cut=cut, xbody=r.wire[r.header_end:j]))
 
 
-def att_fault(rng, cls, tag, method, seq, body_len, reuse_cfg, exhaustive_off=None, racy=False):
-    total, fields = request_len(method, seq, body_len, reuse_cfg)
+def rand_fault(rng, cls, tag, method, seq, body_len, reuse_cfg):
+    total, fields = request_fields(method, seq, body_len, reuse_cfg)
     if cls in "LRBME":
-        return Att(cls, cls, conc())
-    if cls == "T":
-        if rng.chance(1, 2):
-            k = exhaustive_off if exhaustive_off is not None else rng.choice(fields + [0, total])
-            return Att("T", "T", conc(req="s%d" % k), note="silence after %d request bytes" % k)
+        return tok_client(cls)
+    if cls in "TC":
+        on_request = rng.chance(1, 2)
+        if on_request:
+            if cls == "T":
+                return tok_req_fault("s", rng.choice(fields))
+            v = rng.below(5)
+            if v == 0:
+                return tok_req_fault("w", 0)
+            k = rng.choice(fields)
+            if v >= 3 and k == 0:
+                k = 1            # FIN before any byte was read races with the arrival of the request; RST covers offset 0
+            return tok_req_fault("r" if v < 3 else "f", k)
         r = mk_resp(tag, method, mode=rng.choice(["cl", "chunked"]) if method != "HEAD" else "cl")
         lim = len(r.wire) if method != "HEAD" else r.header_end
-        j = rng.choice([0, 1, r.header_end - 1, r.header_end - 4, rng.range(0, lim - 1), lim - 1])
-        j = max(0, min(j, lim - 1))
-        return Att("T", "T", conc(resp=r.wire, j=j, act="s"), note="silence after %d response bytes" % j)
-    if cls == "C":
-        v = rng.below(6)
-        if v == 0:
-            # RST at accept races with the completion of connectSync: the client sees either a failed connect (not sent,
-            # retried) or a closed connection. Both are fine for the property; only the `racy` stream (monitors only) uses it.
-            if racy:
-                return Att("C", "C", conc(req="a0"), note="RST at accept")
-            v = 1
-        if v == 1:
-            return Att("C", "C", conc(req="w0"), note="RST with the request unread")
-        if v in (2, 3):
-            k = exhaustive_off if exhaustive_off is not None else rng.choice(fields + [0, total])
-            if k == 0 and v == 3:
-                k = 1      # FIN before any byte is read races with the request itself; RST (v==2) covers offset 0
-            return Att("C", "C", conc(req="%s%d" % ("r" if v == 2 else "f", k)), note="%s after %d request bytes" % ("RST" if v == 2 else "FIN", k))
-        r = mk_resp(tag, method, mode=rng.choice(["cl", "chunked"]) if method != "HEAD" else "cl")
-        lim = len(r.wire) if method != "HEAD" else r.header_end
-        j = rng.choice([0, 1, r.header_end - 1, r.header_end - 4, rng.range(0, lim - 1), lim - 1])
-        j = max(0, min(j, lim - 1))
-        return Att("C", "C", conc(resp=r.wire, j=j, act="f" if v == 4 else "r"), note="response cut at %d then %s" % (j, "FIN" if v == 4 else "RST"))
+        j = max(0, min(rng.choice(r.boundaries() + [rng.range(0, lim - 1)]), lim - 1))
+        return tok_resp_fault(r, j, "s" if cls == "T" else rng.choice("fr"))
     if cls == "F":
         m = rng.choice(MALFORMED if method == "HEAD" else MALFORMED + MALFORMED_BODY)
-        return Att("F", "F", conc(resp=m, cut=rng.choice([0, 0, 5, len(m) // 2])))
+        return "F@" + conc(resp=m, cut=rng.choice([0, 0, 5, len(m) // 2]))
     if cls == "V":
-        hdr = b"HTTP/1.1 200 OK\r\nContent-Length: 5000\r\n\r\n"
-        return Att("V", "V", conc(resp=hdr + b"v" * 900, act="s"))
+        return "V@" + conc(resp=b"HTTP/1.1 200 OK\r\nContent-Length: 5000\r\n\r\n" + b"v" * 900, act="s")
     raise ValueError(cls)
 
 
-def att_cap(rng, tag, method, cap):
+def tok_cap(rng, tag, cap):
     hdr = b"HTTP/1.1 200 OK\r\nX-Tag: " + tag + b"\r\n\r\n"
-    return Att("P", "P", conc(resp=hdr + b"p" * (cap + 1 - len(hdr) + rng.choice([0, 1, 50])), act="s"))
+    return "P@" + conc(resp=hdr + b"p" * (cap + 1 - len(hdr) + rng.choice([0, 1, 50])), act="s")
+
+
+def req_op(method, budget, url_kind, body_len, toks):
+    return "req %s %d %d %d %s" % (hexs(method.encode("latin-1")), budget, url_kind, body_len, " ".join(toks))
 
 
 # ------------------------------------------------------------------ case generation
-def gen_cases(ctx, rng, n_cases, thorough):
+class Seq:
+    """running number of `req` operations = the X-Req-Id the harness will use (exact unless the harness had to be restarted)"""
+    def __init__(self):
+        self.n = 0
+
+    def next(self):
+        self.n += 1
+        return self.n
+
+
+def gen_random(rng, seq, n_cases):
     cases = []
-    seq = 0
     for ci in range(n_cases):
         reuse_cfg = not rng.chance(1, 8)
         cap = rng.choice([0, 0, 0, 3000])
         ops = ["reset %d %d 50" % (1 if reuse_cfg else 0, cap)]
-        meta = []
-        nreq = rng.choice([1, 2, 2, 3, 4, 6])
-        for ri in range(nreq):
-            seq += 1
-            idem = rng.chance(1, 2)
-            method = rng.choice(METHODS_IDEM) if idem else rng.choice(METHODS_NON)
+        for ri in range(rng.choice([1, 2, 2, 3, 4, 6])):
+            s = seq.next()
+            method = rng.choice(METHODS_IDEM) if rng.chance(1, 2) else rng.choice(METHODS_NON)
             budget = rng.choice([0, 1, 1, 2, 2, 3, 3, -1, 5])
             host = 1 if rng.chance(1, 6) else 0
             url_kind = 9 if rng.chance(1, 40) else host
             body_len = rng.choice([0, 0, 5, 300]) if method not in ("GET", "HEAD") else 0
-            n_att = max(budget, 0) + 2
-            script = []
-            for ai in range(n_att):
+            toks = []
+            for ai in range(max(budget, 0) + 2):
                 tag = ("c%dr%da%d" % (ci, ri, ai)).encode()
                 roll = rng.below(100)
                 if roll < 34:
-                    a = att_ok(rng, tag, method, reuse_cfg)
+                    t = rand_ok(rng, tag, method)
                 elif roll < 40 and method != "HEAD":      # a HEAD response has no body, so it is never close-delimited
-                    a = att_close_delimited(rng, tag, method)
+                    t = rand_close_delimited(rng, tag, method)
                 elif roll < 44 and cap:
-                    a = att_cap(rng, tag, method, cap)
+                    t = tok_cap(rng, tag, cap)
                 else:
-                    cls = rng.choice(list("LRBMETTTCCCCFFV"))
-                    a = att_fault(rng, cls, tag, method, seq, body_len, reuse_cfg)
+                    t = rand_fault(rng, rng.choice(list("LRBMETTTCCCCFFV")), tag, method, s, body_len, reuse_cfg)
                 if rng.chance(1, 25):
-                    a.idle = True
-                script.append(a)
-            ops.append("req %s %d %d %d %s" % (hexs(method.encode()), budget, url_kind, body_len, " ".join(a.tok() for a in script)))
-            meta.append({"method": method, "budget": budget, "host": host, "url_kind": url_kind, "script": script, "reuse_cfg": reuse_cfg})
-        cases.append({"cat": "sequence", "ops": ops, "meta": meta})
+                    t = "I" + t
+                toks.append(t)
+            ops.append(req_op(method, budget, url_kind, body_len, toks))
+        cases.append({"cat": "sequence", "ops": ops})
     return cases
 
 
-def gen_pure_cases(ctx, rng, n):
+def gen_offsets(rng, seq, every_byte):
+    """Fault position sweep: (method, budget, fault kind) x offsets of the request and of the response.
+    quick: offsets at and around every field; thorough: EVERY byte offset."""
+    cases = []
+    methods = [("POST", 5), ("GET", 0)] if not every_byte else [("POST", 5), ("GET", 0), ("PUT", 3), ("PATCH", 0)]
+    budgets = [1] if not every_byte else [0, 1, 2, 3]
+    for method, body_len in methods:
+        for budget in budgets:
+            # the request the client builds: X-Req-Id digits vary with the running number, so compute per case
+            probe_total, probe_fields = request_fields(method, seq.n + 1, body_len)
+            offs = list(range(probe_total + 1)) if every_byte else probe_fields
+            for kind in "rfs":
+                for k in offs:
+                    if kind == "f" and k == 0:
+                        continue
+                    s = seq.next()
+                    tag = ("o%d" % s).encode()
+                    final = tok_ok(mk_resp(tag, method))
+                    n_fault = max(budget, 0) + 1 if rng.chance(1, 3) else 1     # sometimes the fault persists over the whole budget
+                    toks = [tok_req_fault(kind, k)] * n_fault + [final] * (max(budget, 0) + 2 - n_fault)
+                    cases.append({"cat": "offset-request", "ops": ["reset 1 0 50", req_op(method, budget, 0, body_len, toks)]})
+            for mode in ("cl", "chunked"):
+                probe = mk_resp(b"o%d" % (seq.n + 1), method, mode=mode)
+                offs = list(range(len(probe.wire))) if every_byte else [o for o in probe.boundaries() if o < len(probe.wire)]
+                for act in "frs":
+                    for j in offs:
+                        s = seq.next()
+                        tag = ("o%d" % s).encode()
+                        r = mk_resp(tag, method, mode=mode)
+                        jj = min(j, len(r.wire) - 1)
+                        final = tok_ok(mk_resp(tag + b"z", method))
+                        n_fault = max(budget, 0) + 1 if rng.chance(1, 3) else 1
+                        toks = [tok_resp_fault(r, jj, act)] * n_fault + [final] * (max(budget, 0) + 2 - n_fault)
+                        cases.append({"cat": "offset-response", "ops": ["reset 1 0 50", req_op(method, budget, 0, body_len, toks)]})
+    return cases
+
+
+def gen_racy(rng, seq, n):
+    """RST at accept races with the completion of connectSync: the client sees either a failed connect (not sent, retried for
+    every method) or a closed connection (possibly sent). Both satisfy the property; the model cannot know which one happened,
+    so these cases are judged by the monitors only."""
+    cases = []
+    for i in range(n):
+        s = seq.next()
+        method = rng.choice(["POST", "GET", "PATCH", "PUT", "post"])
+        budget = rng.choice([0, 1, 2, 3])
+        tag = ("y%d" % s).encode()
+        toks = [tok_req_fault("a", 0)] * rng.range(1, budget + 1) + [tok_ok(mk_resp(tag, method))] * (budget + 2)
+        cases.append({"cat": "racy", "ops": ["reset 1 0 50", req_op(method, budget, 0, 5 if method not in ("GET",) else 0, toks[:budget + 2])]})
+    return cases
+
+
+def gen_realtime(rng, seq, n):
+    """a few silent peers with REAL time-outs (virtual clock off): the attempt must end within a small multiple of requestTimeout"""
+    ops = ["reset 1 0 50", "vclock 0"]
+    for i in range(n):
+        s = seq.next()
+        method = rng.choice(["POST", "GET"])
+        total, fields = request_fields(method, s, 0)
+        r = mk_resp(b"rt%d" % s, method)
+        t = tok_req_fault("s", rng.choice(fields)) if i % 2 == 0 else tok_resp_fault(r, rng.choice(r.boundaries()[:-1]), "s")
+        ops.append(req_op(method, 0, 0, 0, [t, tok_ok(mk_resp(b"rtz%d" % s, method))]))
+    ops.append("vclock 1")
+    return [{"cat": "realtime", "ops": ops}]
+
+
+def gen_pure(rng, n):
     cases = []
     ops, exp = [], []
-    for m in METHODS_IDEM + METHODS_NON + ["", " GET", "GET ", "GÉT".encode("latin-1", "replace").decode("latin-1"), "CONNECT"]:
-        mb = m.encode("latin-1")
-        ops.append("idem %s" % hexs(mb))
+    for m in METHODS_IDEM + METHODS_NON + ["", " GET", "GET ", "G\xc9T", "CONNECT", "GET\x00", "\x00"]:
+        ops.append("idem %s" % hexs(m.encode("latin-1")))
         exp.append("1" if m in RFC_IDEMPOTENT else "0")
     cases.append({"cat": "idem", "ops": ops, "expect": exp})
     ops, exp = [], []
@@ -286,9 +371,8 @@ def gen_pure_cases(ctx, rng, n):
     for _ in range(n):
         toks = []
         for _ in range(rng.range(0, 4)):
-            t = rng.choice([b"close", b"keep-alive", b"Close", b"KEEP-ALIVE", b"foo", b"", b"x-close", b"closee", b"clos", b"upgrade", b"cLoSe"])
-            t = rng.choice([b"", b" ", b"\t", b"  "]) + t + rng.choice([b"", b" ", b"\t", b" \t "])
-            toks.append(t)
+            t = rng.choice([b"close", b"keep-alive", b"Close", b"KEEP-ALIVE", b"foo", b"", b"x-close", b"closee", b"clos", b"upgrade", b"cLoSe", b"close\x00"])
+            toks.append(rng.choice([b"", b" ", b"\t", b"  "]) + t + rng.choice([b"", b" ", b"\t", b" \t "]))
         vals.append(b",".join(toks))
     for v in vals:
         for ver in (b"1.1", b"1.0", b"", b"1.00"):
@@ -298,7 +382,177 @@ def gen_pure_cases(ctx, rng, n):
     return cases
 
 
-# ------------------------------------------------------------------ property monitors (implementation output only)
+def gen_par(rng, n_cases):
+    """Concurrent callers sharing one client. Faults are response-side only (the server binds them from X-Req-Id once the request
+    is in); no silence (advancing the virtual clock for one caller would time out the others)."""
+    cases = []
+    for ci in range(n_cases):
+        reuse_cfg = not rng.chance(1, 6)
+        ops = ["reset %d 0 0" % (1 if reuse_cfg else 0)]
+        if rng.chance(1, 2):    # warm up: something may already be cached
+            m = rng.choice(["GET", "POST"])
+            ops.append(req_op(m, 0, rng.choice([0, 0, 1]), 0, [rand_ok(rng, ("w%d" % ci).encode(), m), tok_ok(mk_resp(b"wz", m))]))
+        threads = []
+        for ti in range(rng.choice([2, 2, 3, 3, 4, 6])):
+            method = rng.choice(["GET", "GET", "POST", "POST", "PUT", "PATCH", "DELETE", "post", "HEAD"])
+            budget = rng.choice([0, 1, 2, 2])
+            host = 1 if rng.chance(1, 4) else 0
+            toks = []
+            for ai in range(budget + 2):
+                tag = ("p%dt%da%d" % (ci, ti, ai)).encode()
+                roll = rng.below(10)
+                if roll < 5:
+                    head = method == "HEAD"
+                    r = mk_resp(tag, method, rng.choice([b"1.1", b"1.1", b"1.0"]), rng.choice([200, 404, 503]),
+                                rng.choice([None, None, b"close", b"keep-alive", b"foo, close"]), "nobody" if head else rng.choice(["cl", "chunked"]),
+                                rng.choice([b"", b"", b"X"]))
+                    cut = rng.choice([0, 5, r.header_end, r.header_end - 3])
+                    if cut >= len(r.wire) - (1 if r.surplus else 0):
+                        cut = 0
+                    toks.append(tok_ok(r, True, cut))
+                elif roll < 6 and method != "HEAD":
+                    toks.append(rand_close_delimited(rng, tag, method))
+                elif roll < 8:
+                    m = rng.choice(MALFORMED if method == "HEAD" else MALFORMED + MALFORMED_BODY)
+                    toks.append("F@" + conc(resp=m, cut=rng.choice([0, 5])))
+                else:
+                    r = mk_resp(tag, method, mode="cl")
+                    lim = len(r.wire) if method != "HEAD" else r.header_end
+                    toks.append(tok_resp_fault(r, rng.range(0, lim - 1), "f"))
+            threads.append("%s/%d/%d/%s" % (hexs(method.encode()), budget, host, ";".join(toks)))
+        ops.append("par " + " ".join(threads))
+        cases.append({"cat": "concurrent", "ops": ops})
+    return cases
+
+
+def par_events(ev):
+    """`2c1,0s2,...` -> [(thread, kind, session)]"""
+    out = []
+    if ev != "-":
+        for e in ev.split(","):
+            m = re.match(r"(\d+)([csx])(\d+)$", e)
+            out.append((int(m.group(1)), m.group(2), int(m.group(3))))
+    return out
+
+
+def par_schedule(events):
+    """order of the exchanges = order of their first engine call; an exchange of a thread is [c] s [x]"""
+    sched = []
+    has_s = {}
+    for t, k, sid in events:
+        if t not in has_s or k == "c" or (k == "s" and has_s[t]):
+            if not (t in has_s and k == "s" and not has_s[t]):
+                sched.append(t)
+                has_s[t] = False
+        if k == "s":
+            has_s[t] = True
+    return sched
+
+
+def par_projection(events, n):
+    return "|".join("t%d:%s" % (i, ",".join("%s%d" % (k, sid) for t, k, sid in events if t == i) or "-") for i in range(n))
+
+
+def monitor_par(op, line):
+    bad = []
+    if line.startswith("crash:") or line.startswith("throw") or line == "bad-op":
+        return ["R6: concurrent requests did not all end with a value or an error: %s" % line[:100]]
+    f = fields_of(line)
+    threads = op.split()[1:]
+    events = par_events(f.get("ev", "-"))
+    closed = set()
+    for t, k, sid in events:
+        if k == "x":
+            closed.add(sid)
+        elif k == "s" and sid in closed:
+            bad.append("R4: thread %d sent on session %d after it had been closed/evicted (trace %s)" % (t, sid, f["ev"][:200]))
+    mx = f.get("maxex", "0,0").split(",")
+    if any(int(x) > 1 for x in mx):
+        bad.append("R4: two exchanges with the same host:port were in progress at the same time (server saw %s)" % f.get("maxex"))
+    if f.get("leased") != "0":
+        bad.append("R4: lease still held after all requests returned (leased=%s)" % f.get("leased"))
+    for i, th in enumerate(threads):
+        mh, b, uk, toks = th.split("/")
+        method = unhex(mh).decode("latin-1")
+        budget = max(int(b), 0)
+        script = [Tok(x) for x in toks.split(";")]
+        r = f.get("r%d" % i, "?/0/-").split("/")
+        res, att, body = r[0], int(r[1]), r[2]
+        mine = [(k, sid) for t, k, sid in events if t == i]
+        sends = [e for e in mine if e[0] == "s"]
+        if method not in RFC_IDEMPOTENT:
+            if len(sends) > 1:
+                bad.append("R1: thread %d: %s handed to the transport in %d attempts" % (i, method, len(sends)))
+            elif sends and any(k in "cs" for k, _ in mine[mine.index(sends[0]) + 1:]):
+                bad.append("R1: thread %d: %s: another attempt followed the one that reached sendSync" % (i, method))
+        if att > budget + 1:
+            bad.append("R2: thread %d: %d attempts with retry budget %d" % (i, att, budget))
+        for j, a in enumerate(script[:att]):
+            if a.cls in FRAMING_CLASSES and (j + 1 != att or res != "err:framing"):
+                bad.append("R3: thread %d: attempt %d met a framing error but the request went on / ended as %s" % (i, j, res))
+                break
+        last = script[att - 1] if 0 < att <= len(script) else None
+        if res.startswith("ok:") and last is not None and last.xbody is not None and body != last.xbody:
+            bad.append("R4: thread %d got a response body that was not sent for its request: got %s want %s" % (i, body[:60], last.xbody[:60]))
+    return bad
+
+
+def run_par(ctx, hb, cases, consts, have_model):
+    """trace inclusion for concurrent callers: the implementation runs first; the order in which the exchanges happened is read
+    off its engine trace and the model replays exactly that schedule (acceptor = simulation, DESIGN §2.2)"""
+    ops = [o for c in cases for o in c["ops"]]
+    impl, rc, err = ctx.run_lines([hb], ops, timeout=3000)
+    impl += ["crash:%s" % rc] * (len(ops) - len(impl))
+    mops = []
+    for o, l in zip(ops, impl):
+        if o.startswith("par "):
+            ev = par_events(fields_of(l).get("ev", "-")) if l.startswith("ev=") else []
+            mops.append("parm %s %s" % (",".join(map(str, par_schedule(ev))) or "-", o[4:]))
+        else:
+            mops.append(o)
+    model = impl
+    if have_model:
+        model, mrc, merr = ctx.run_lines(ctx.model_argv("httpretry"), mops, timeout=3000)
+        if mrc != 0 or len(model) != len(mops):
+            raise RuntimeError("model driver failed on the concurrent cases rc=%s lines=%d/%d" % (mrc, len(model), len(mops)))
+    k = 0
+    n_mis = 0
+    for c in cases:
+        n = len(c["ops"])
+        cops, cimpl, cmodel = c["ops"], impl[k:k + n], model[k:k + n]
+        k += n
+        ctx.count_case("\n".join(cops), nontrivial=True)
+        ctx.cov["traces_validated_against_impl"] += 1
+        seq_case = {"cat": "sequence", "ops": [o for o in cops if not o.startswith("par ")]}
+        fails = monitor_case(seq_case, [l for o, l in zip(cops, cimpl) if not o.startswith("par ")], consts)
+        mism = None
+        for o, a, b in zip(cops, cimpl, cmodel):
+            if o.startswith("par "):
+                fails += monitor_par(o, a)
+                if have_model and a.startswith("ev="):
+                    f = fields_of(a)
+                    nthreads = len(o.split()) - 1
+                    want = "ev=%s %s cache=%s leased=%s" % (
+                        par_projection(par_events(f.get("ev", "-")), nthreads),
+                        " ".join("r%d=%s" % (i, "/".join(f.get("r%d" % i, "?/0").split("/")[:2])) for i in range(nthreads)),
+                        f.get("cache"), f.get("leased"))
+                    if want != b and mism is None:
+                        mism = (o, want, b)
+            elif have_model and compared(a) != b and mism is None:
+                mism = (o, compared(a), b)
+        if fails:
+            ctx.violation("property", fails[0], {"ops": cops, "observed": cimpl, "failures": fails[:5], "category": "concurrent"}, found_input=True)
+        elif mism:
+            n_mis += 1
+            if n_mis <= 3:
+                ctx.violation("correspondence", "concurrent callers: the model replaying the observed schedule disagrees with the implementation: op `%s` impl=`%s` model=`%s`"
+                              % (mism[0][:120], mism[1][:200], mism[2][:200]),
+                              {"broken": {"correspondence": "httpretry concurrent acceptor (harness/c17_httpretry.cpp `par` vs Model/HttpLease.lean)"},
+                               "ops": cops, "category": "concurrent", "observed": cimpl, "expected_by_model": cmodel}, found_input=False)
+    return len(cases)
+
+
+# ------------------------------------------------------------------ property monitors (implementation output only + the op line)
 def fields_of(line):
     d = {}
     for part in line.replace(" | ", " ").split():
@@ -306,6 +560,39 @@ def fields_of(line):
             k, v = part.split("=", 1)
             d[k] = v
     return d
+
+
+class Tok:
+    """what the generator encoded in one script token (decoded again from the op line, so that replays are self-contained)"""
+    def __init__(self, t):
+        sem, con = t.split("@", 1)
+        self.idle = sem.startswith("I")
+        if self.idle:
+            sem = sem[1:]
+        self.cls = sem[0]
+        self.sem = sem
+        cs = con.split(",")
+        self.req = cs[0]
+        self.xbody = None if len(cs) < 6 or cs[5] == "~" else cs[5]
+        self.conn = self.version = None
+        self.surplus = False
+        self.async_ok = True
+        if self.cls in "KD":
+            f = sem.split(":")
+            st, conn, ver, sp = f[1].split(",")
+            self.conn = None if conn == "~" else unhex(conn)
+            self.version = unhex(ver)
+            self.surplus = sp == "1"
+            if self.cls == "K":
+                self.async_ok = f[2] == "1"
+
+    def reusable(self, reuse_cfg):
+        return (self.cls == "K" and reuse_cfg and not py_close_signalled(self.conn, self.version) and not self.surplus and self.async_ok)
+
+
+def parse_req(op):
+    t = op.split()
+    return {"method": unhex(t[1]).decode("latin-1"), "budget": int(t[2]), "url_kind": int(t[3]), "toks": [Tok(x) for x in t[5:]]}
 
 
 def monitor_case(c, impl, consts):
@@ -317,10 +604,22 @@ def monitor_case(c, impl, consts):
                 bad.append("%s: %s -> implementation says %s, the reference (RFC 9110 §9.2.2 / RFC 7230 §6.1) says %s" % (tag, op, l, e))
         return bad
     closed = set()
-    for op, l, m in zip(c["ops"][1:], impl[1:], c["meta"]):
+    reuse_cfg = True
+    realtime = False
+    for op, l in zip(c["ops"], impl):
+        if op.startswith("reset "):
+            reuse_cfg = op.split()[1] == "1"
+            closed = set()
+            continue
+        if op.startswith("vclock "):
+            realtime = op.split()[1] == "0"
+            continue
+        if not op.startswith("req "):
+            continue
         if l.startswith("crash:") or l.startswith("throw") or l == "bad-op":
             bad.append("R6: the request did not end with a value or an error: %s -> %s" % (op[:100], l))
             continue
+        m = parse_req(op)
         f = fields_of(l)
         try:
             att = int(f["att"])
@@ -328,7 +627,8 @@ def monitor_case(c, impl, consts):
         except (KeyError, ValueError):
             bad.append("R6: unparsable answer %s" % l[:120])
             continue
-        script = m["script"]
+        script = m["toks"]
+        host = 1 if m["url_kind"] == 1 else 0
         idem = m["method"] in RFC_IDEMPOTENT
         budget = max(m["budget"], 0)
         sends = [e for e in ev if e[0] == "s"]
@@ -345,10 +645,9 @@ def monitor_case(c, impl, consts):
         # R2: at most budget + 1 attempts
         if att > budget + 1 or f.get("exhausted") == "1":
             bad.append("R2: %d attempts with retry budget %d (%s)" % (att, m["budget"], m["method"]))
-        # R3: a deterministic framing error ends the loop at once
+        # R3: a deterministic framing error ends the loop at once (nothing skips these classes once the URL parses)
         for i, a in enumerate(script[:att]):
             if a.cls in FRAMING_CLASSES and m["url_kind"] != 9 and (i + 1 != att or f["res"] != "err:framing"):
-                # only if the attempt really got as far as receiving (a cached connection skips connect faults, nothing skips these)
                 bad.append("R3: attempt %d met a framing error (%s) but the request went on / ended as %s after %d attempts" % (i, a.cls, f["res"], att))
                 break
         # R4: no use of a session after it was closed; nothing cached for the host unless the final exchange allows reuse
@@ -359,9 +658,9 @@ def monitor_case(c, impl, consts):
                 bad.append("R4: request sent on session %s after it had been closed/evicted (engine trace %s)" % (e[1:], f["ev"]))
         cached_hosts = set(x.split("#")[0] for x in f.get("cache", "-").split(",") if x != "-")
         last = script[att - 1] if 0 < att <= len(script) else None
-        # (L leaves the cache alone; R/B only bite when a connection has to be opened, which the generator does not track)
-        if last is not None and m["url_kind"] != 9 and last.cls not in "LRB" and not last.reusable:
-            if "h%d" % m["host"] in cached_hosts:
+        # (L leaves the cache alone; R/B only bite when a connection has to be opened, which the monitor does not track)
+        if last is not None and m["url_kind"] != 9 and last.cls not in "LRB" and c["cat"] != "racy" and not last.reusable(reuse_cfg):
+            if "h%d" % host in cached_hosts:
                 bad.append("R4: a connection stays cached after an exchange that forbids reuse (class %s, %s)" % (last.cls, last.sem[:60]))
         if f.get("leased") != "0":
             bad.append("R4: lease still held after the request returned (leased=%s)" % f.get("leased"))
@@ -370,10 +669,12 @@ def monitor_case(c, impl, consts):
         for i, v in enumerate(avms):
             if v > 10 * REQUEST_TIMEOUT_MS:
                 bad.append("R6: attempt %d lasted %d ms of client time with requestTimeout %d ms" % (i, v, REQUEST_TIMEOUT_MS))
+        if realtime and int(f.get("rms", "0")) > 10 * REQUEST_TIMEOUT_MS * max(att, 1):
+            bad.append("R6: %d attempt(s) took %s ms of real time with requestTimeout %d ms" % (att, f.get("rms"), REQUEST_TIMEOUT_MS))
         # a response is attributed to the request it answers
-        if f["res"].startswith("ok:") and last is not None and last.body is not None:
-            if f.get("body") != hexs(last.body):
-                bad.append("R4: the response body handed to the caller is not the one sent for this request: got %s want %s" % (f.get("body", "")[:60], hexs(last.body)[:60]))
+        if f["res"].startswith("ok:") and last is not None and last.xbody is not None and c["cat"] != "racy":
+            if f.get("body") != last.xbody:
+                bad.append("R4: the response body handed to the caller is not the one sent for this request: got %s want %s" % (f.get("body", "")[:60], last.xbody[:60]))
         # back-off constants
         sl = [int(x) for x in f.get("sleeps", "-").split(",") if x not in ("-", "")]
         for k, v in enumerate(sl):
@@ -386,8 +687,8 @@ def monitor_case(c, impl, consts):
     return bad
 
 
-def gen_consts(ctx):
-    p = os.path.join(os.environ.get("VERIF_LEAN", os.path.join(os.path.dirname(os.path.dirname(os.path.abspath(__file__))), "lean")), "IoraModel", "Gen", "HttpRetry.lean")
+def gen_consts():
+    p = os.path.join(os.environ.get("VERIF_LEAN", os.path.join(HERE, "lean")), "IoraModel", "Gen", "HttpRetry.lean")
     out = {"backoffBaseMs": 100, "jitterLo": 0, "jitterHi": 99}
     try:
         t = open(p).read()
@@ -400,6 +701,10 @@ def gen_consts(ctx):
     return out
 
 
+def compared(line):
+    return line.split(" | ")[0]
+
+
 def run(ctx: Ctx):
     quick = ctx.tier == "quick"
     rng = ctx.rng
@@ -408,30 +713,55 @@ def run(ctx: Ctx):
     if ok_build:
         ctx.audit(MODULES, OBLIGATIONS)
         if not quick:
-            ctx.leanchecker(MODULES + ["IoraModel.Lemmas.HttpRetry", "IoraModel.Lemmas.HttpRetryCache", "IoraModel.Model.HttpRetry"])
+            ctx.leanchecker(LEANCHECK)
     else:
         ctx.cov["obligations"] = len(OBLIGATIONS)
-    hb = ctx.build_harness("harness/c17_httpretry.cpp", sanitize=True)
+    hb = ctx.build_harness("harness/c17_httpretry.cpp", sanitize=True, opt="-O0")
     dist = {}
-    consts = gen_consts(ctx)
-    if hb and os.path.exists(ctx.model_bin()):
-        cases = load_corpus() + gen_pure_cases(ctx, rng.fork("pure"), 60 if quick else 600) + gen_cases(ctx, rng.fork("seq"), 450 if quick else 9000, not quick)
-        res = ctx.lockstep("httpretry", hb, cases, timeout=900)
+    consts = gen_consts()
+    have_model = False
+    try:
+        ctx.model_argv("httpretry")
+        have_model = True
+    except ModelBuildError:
+        pass          # recorded as a violation; the monitors still run on the implementation to supply the failing input
+    if hb:
+        if ctx.replay:
+            rp = json.load(open(ctx.replay))
+            cases = [{"cat": rp.get("category", "replay"), "ops": rp["ops"], "expect": rp.get("expect", [])}]
+        else:
+            seq = Seq()
+            cases = load_corpus()
+            for c in cases:
+                seq.n += sum(1 for o in c["ops"] if o.startswith("req "))
+            cases += gen_pure(rng.fork("pure"), 60 if quick else 600)
+            cases += gen_random(rng.fork("seq"), seq, 350 if quick else 9000)
+            cases += gen_offsets(rng.fork("off"), seq, every_byte=not quick)
+            cases += gen_racy(rng.fork("racy"), seq, 40 if quick else 600)
+            cases += gen_realtime(rng.fork("rt"), seq, 4 if quick else 12)
+            cases.append({"cat": "stats", "ops": ["stats"]})
+        res = ctx.lockstep("httpretry", hb, cases, timeout=3000) if have_model else impl_only(ctx, hb, cases)
         n_mismatch = 0
         exchanges = 0
         for c, impl, model in res:
             dist[c["cat"]] = dist.get(c["cat"], 0) + 1
+            if c["cat"] == "stats":
+                ctx.extra["interposers"] = fields_of(impl[0]) if impl and "=" in impl[0] else impl
+                continue
             ctx.count_case("\n".join(c["ops"]), nontrivial=True)
             fails = monitor_case(c, impl, consts)
-            for l in impl:
+            for op, l in zip(c["ops"], impl):
                 if l.startswith("ev="):
-                    exchanges += int(fields_of(l).get("att", "0"))
-            for m in c.get("meta", []):
-                for a in m["script"]:
-                    dist["att:" + a.cls] = dist.get("att:" + a.cls, 0) + 1
-            mism = [(i, a, b) for i, (a, b) in enumerate(zip(impl, model)) if a.split(" | ")[0] != b]
-            if len(ctx.cov["samples"]) < 6 and c["cat"] == "sequence" and rng.chance(1, 40):
-                ctx.sample({"ops": [o[:200] for o in c["ops"][:3]], "impl": [l[:200] for l in impl[:3]]})
+                    n = int(fields_of(l).get("att", "0"))
+                    exchanges += n
+                    for t in op.split()[5:5 + n]:
+                        k = "att:" + t.lstrip("I")[0]
+                        dist[k] = dist.get(k, 0) + 1
+                    k = "res:" + fields_of(l).get("res", "?").split(":")[0] + ":" + fields_of(l).get("res", "?").split(":")[-1]
+                    dist[k] = dist.get(k, 0) + 1
+            mism = [] if c["cat"] == "racy" else [(i, a, b) for i, (a, b) in enumerate(zip(impl, model)) if compared(a) != b]
+            if len(ctx.cov["samples"]) < 6 and c["cat"] in ("sequence", "offset-request", "offset-response") and rng.chance(1, 60):
+                ctx.sample({"ops": [o[:220] for o in c["ops"][:3]], "impl": [l[:260] for l in impl[:3]]})
             if fails:
                 report_property(ctx, hb, c, impl, model, fails, consts)
             elif mism:
@@ -439,20 +769,83 @@ def run(ctx: Ctx):
                 if n_mismatch <= 3:
                     i, a, b = mism[0]
                     ctx.violation("correspondence", "model and implementation disagree (no property monitor fails on this case): op `%s` impl=`%s` model=`%s`"
-                                  % (c["ops"][i][:160], a.split(" | ")[0][:160], b[:160]),
+                                  % (c["ops"][i][:160], compared(a)[:160], b[:160]),
                                   {"broken": {"correspondence": "httpretry trace inclusion (harness/c17_httpretry.cpp vs Model/HttpRetry.lean)",
                                               "detail": "first differing op index %d" % i},
-                                   "ops": c["ops"], "observed": impl, "expected_by_model": model}, found_input=False)
+                                   "ops": c["ops"], "category": c["cat"], "observed": impl, "expected_by_model": model}, found_input=False)
         ctx.extra["exchanges"] = exchanges
+        if not ctx.replay:
+            dist["concurrent"] = run_par(ctx, hb, gen_par(rng.fork("par"), 60 if quick else 1500), consts, have_model)
     ctx.extra["input_distribution"] = dist
     ctx.extra["repo_tree_sha"] = ctx.repo_tree_sha(ANCHOR_FILES)
-    return ctx.finish(level="proof", rule="a case = reset + a sequence of logical requests (method, budget, per-attempt fault script) against the scripted loopback server")
+    ctx.extra["not_proved"] = [
+        "R6 wall-clock part (each attempt ends within its configured timeout): measured by the harness (virtual client time per attempt, plus real-time cases), not a theorem",
+        "R4 'at most one lease holder at a time' under concurrent callers: the sequential model proves no lease is left held; concurrent schedules are not modelled here",
+        "responseRequestsClose = RFC 7230 token-list semantics: the model mirrors the index loop; agreement with the RFC reading is checked differentially against an independent Python reference, not proved",
+    ]
+    ctx.assumptions += [
+        "what frameResponse does with the received bytes is C15's model; here its outcome per receive iteration (need-more / complete(info) / malformed / cap) is an input class",
+        "Transport::receiveSync returns within the timeout it is given and reports Timeout/PeerClosed/BufferOverflow/ShuttingDown as documented (C03/C04)",
+        "'surplus bytes' are bytes beyond the framed message that have been received when frameResponse completes; the generator sends them in the same segment as the message they follow",
+        "the engine hands out strictly increasing session ids (TcpEngine::_nextSessionId); the harness numbers sessions by creation order",
+        "RST at accept races with connectSync's completion; those cases are judged by the monitors only (category `racy`)",
+    ]
+    return ctx.finish(level="proof", rule="a case = reset + a sequence of logical requests (method, budget, per-attempt fault script) against the scripted loopback server; "
+                      "distinct = distinct op lists; every case reaches the retry loop, so all are non-trivial; `exchanges` counts attempts")
+
+
+def impl_only(ctx, hb, cases):
+    """no model driver: run the implementation alone (monitors only)"""
+    res = []
+    for i in range(0, len(cases), 200):
+        chunk = cases[i:i + 200]
+        ops = [o for c in chunk for o in c["ops"]]
+        out, rc, err = ctx.run_lines([hb], ops, timeout=3000)
+        out += ["crash:no-output"] * (len(ops) - len(out))
+        k = 0
+        for c in chunk:
+            lines = out[k:k + len(c["ops"])]
+            k += len(c["ops"])
+            res.append((c, lines, [compared(l) for l in lines]))
+    return res
 
 
 def report_property(ctx, hb, c, impl, model, fails, consts):
-    obj = {"ops": c["ops"], "observed": impl, "expected_by_model": model, "failures": fails[:5], "category": c["cat"]}
+    ops = c["ops"]
+    if not ctx.violation_budget("property", fails[0]):
+        ctx.violation("property", fails[0])
+        return
+    if len(ops) > 2 and c["cat"] not in ("idem", "rrc"):
+        cls = fails[0].split(":")[0]
+
+        def still(sub):
+            if not sub or not sub[0].startswith("reset "):
+                sub = [ops[0]] + [o for o in sub if not o.startswith("reset ")]
+            out, rc, err = ctx.run_lines([hb], sub, timeout=120)
+            out = out + ["crash:" + str(rc)] * (len(sub) - len(out))
+            cc = dict(c)
+            cc["ops"] = sub
+            return any(f.split(":")[0] == cls for f in monitor_case(cc, out, consts))
+        try:
+            if still(ops):
+                small = ddmin(ops[1:], lambda s: still([ops[0]] + s), max_tests=40)
+                ops = [ops[0]] + small
+        except Exception:
+            pass
+    obj = {"ops": ops, "observed": impl if ops is c["ops"] else None, "expected_by_model": model if ops is c["ops"] else None,
+           "failures": fails[:5], "category": c["cat"]}
+    if "expect" in c:
+        obj["expect"] = c["expect"]
     ctx.violation("property", fails[0], obj, found_input=True)
 
 
 def load_corpus():
-    return []
+    d = os.path.join(HERE, "corpus", "C17")
+    out = []
+    if os.path.isdir(d):
+        for fn in sorted(os.listdir(d)):
+            if fn.endswith(".json"):
+                c = json.load(open(os.path.join(d, fn)))
+                c.setdefault("cat", "corpus")
+                out.append(c)
+    return out
